@@ -393,6 +393,11 @@ func (r *Replica) value(shape string) interface{} {
 		return map[string]interface{}{}
 	case "ea":
 		return []interface{}{}
+	case "em":
+		// an empty array followed, in the same operation, by further members (keys are walked in sorted order)
+		return map[string]interface{}{"a": []interface{}{}, "b": r.tag(), "c": []interface{}{r.tag()}}
+	case "eam":
+		return []interface{}{[]interface{}{}, r.tag(), map[string]interface{}{}, r.tag()}
 	case "nil":
 		return nil
 	case "tnil":
